@@ -306,6 +306,9 @@ def run_progs(pid, rep, specs, deadline_s):
         line = (r.stdout.strip().splitlines() or [''])[-1]
         try: res = json.loads(line)
         except Exception:
+            san = [l.strip() for l in r.stderr.splitlines() if l.startswith('SUMMARY:') or 'runtime error:' in l or l.startswith('CASE ')]
+            if san:
+                rep.add({'kind': 'sanitizer-report', 'known': '', 'engine': 'prog', 'summary': '%s: %s' % (label, ' | '.join(san[:3])[:600]), 'program': sp['src'], 'compiler': comp}); continue
             rep.add({'kind': 'program-crashed', 'known': '', 'engine': 'prog', 'summary': '%s exited %s without a result: %s' % (label, r.returncode, (r.stdout + r.stderr)[-400:]), 'program': sp['src'], 'compiler': comp}); continue
         totals['cases'] += res.get('cases', 0); totals['checks'] += res.get('checks', 0); totals['programs'] += 1
         for k, v in res.items():
@@ -351,13 +354,20 @@ def c07_one(gname, n, comp, work):
     r = sh(syn)
     bad = {}; other = []
     base = os.path.basename(src)
+    ctx_line = None   # g++ reports an error inside the header after "in 'constexpr' expansion of" lines that name the case
     for l in (r.stdout + r.stderr).splitlines():
+        mc = re.match(r'.*?' + re.escape(base) + r":(\d+):\d+:\s+in 'constexpr' expansion of", l)
+        if mc and ctx_line is None and int(mc.group(1)) in lines: ctx_line = int(mc.group(1))
         mm = re.match(r'.*?' + re.escape(base) + r':(\d+):\d+: error: (.*)', l)
         if mm:
             ln = int(mm.group(1))
             if ln in lines: bad.setdefault(lines[ln], mm.group(2))
             else: other.append(l)
-        elif ': error:' in l and base not in l: pass
+            ctx_line = None
+        elif ': error:' in l:
+            if ctx_line is not None: bad.setdefault(lines[ctx_line], l.split('error:', 1)[1].strip())
+            else: other.append(l)
+            ctx_line = None
     res = {'grammar': gname, 'compiler': comp, 'cases': len(inputs), 'not_constant': [(i, inputs[i], bad[i]) for i in sorted(bad)], 'other_errors': other[:3]}
     if other: return res
     exe = src[:-4]
